@@ -155,6 +155,10 @@ def run(chk):
         chk.ob("R13.2", "core-present:%s" % k.replace("vaporetto::", ""), len(present) >= 16, "core function %s is missing from the analysed configurations (anchor lost?)" % k)
     # ---- R13.3
     twins(chk)
+    from . import c01_cache
+    chk.rule("R01.6", "cache alphabet constants (shared with C01)")
+    chk.rule("R01.7", "cache window forms: the table lookup must see the same 2W-wide window as the automaton scorer (shared with C01)")
+    c01_cache.run(chk, facts.world(cfgname(F)))
 
 
 def twins(chk):
